@@ -435,8 +435,12 @@ def catalogue():
         """A catchment description whose cell lists do not fit its grid (made
         for a larger grid, or edited by hand), then the usual methods."""
         n = int(a.fd.nrows * a.fd.ncols)
-        cells = np.array([c if c >= 0 else n + (-c) * o["far"]
-                          for c in o["cells"]], dtype=np.int64)
+        if o.get("negative"):
+            # negative cell numbers as they are (-1, -2, -7)
+            cells = np.array(o["cells"], dtype=np.int64)
+        else:
+            cells = np.array([c if c >= 0 else n + (-c) * o["far"]
+                              for c in o["cells"]], dtype=np.int64)
         dic = {"name": "foreign", "idxcell_outlet": int(cells[0]),
                "idxinlets": None, "idxcells_area": cells.tolist(),
                "idxcells_area_filled": cells.tolist(),
@@ -458,6 +462,7 @@ def catalogue():
         lambda cs: {"cells": [cs.choice(f"c{i}", [0, 1, 2, 5, -1, -2, -7, 3])
                               for i in range(cs.between("nc", 2, 6))],
                     "far": cs.choice("far", [1, 3, 1000, 2 ** 33]),
+                    "negative": cs.flip("negative", 35),
                     "then": [cs.choice(f"t{i}", ["boundary", "extent",
                                                  "flowpaths", "intersect"])
                              for i in range(2)]}, weight=5)
